@@ -267,7 +267,10 @@ def fKeyState (layout : Layout) (cfg : Cfg) (s : FState) (key : Nat) (modifier :
   | none => none
   | some value =>
     let s' := processKeyValue cfg s value
-    if cfg.fixedSuggestion then
+    -- the value was dropped (a sign without independent form in a vowel-forming position) and nothing is being
+    -- composed: no raw key text is kept and the empty suggestion is returned (`fKey`)  [repaired by 389b777]
+    if s'.rbuf.isEmpty && s'.pending.isNone then some { s' with rtyped := [] }
+    else if cfg.fixedSuggestion then
       match keycodeToChar key with
       | some ch => some { s' with rtyped := ch :: s'.rtyped }
       | none => some s'
